@@ -270,7 +270,11 @@ func c07Response(s *verifh.Session, selfURL string) ([]byte, []string) {
 	var hdr []string
 	add := func(k, v string) { hdr = append(hdr, k+": "+v) }
 	// content type
-	ct := verifh.Pick(r, []string{"", "text/html", "text/html; charset=gbk", "text/plain; charset=utf-8", "application/json", "application/json; charset=\"", "text/xml; charset=big5", "text/html; charset=", "text/html;charset=x-unknown", "text/html; charset=utf-16", "application/xml", ";;;", "text/html; charset=\"gbk", "a/b; charset=iso-8859-1; charset=gbk"})
+	ct := verifh.Pick(r, []string{"", "text/html", "text/html; charset=gbk", "text/plain; charset=utf-8", "application/json", "application/json; charset=\"", "text/xml; charset=big5", "text/html; charset=", "text/html;charset=x-unknown", "text/html; charset=utf-16", "application/xml", ";;;", "text/html; charset=\"gbk", "a/b; charset=iso-8859-1; charset=gbk",
+		// IANA-registered names with no decoder, aliases, odd spellings
+		"text/html; charset=utf-7", "text/plain; charset=utf-32", "text/html; charset=cesu-8", "text/xml; charset=scsu", "text/html; charset=iso-2022-kr", "text/html; charset=hz-gb-2312",
+		"text/html; charset=ebcdic-cp-us", "text/plain; charset=unicode-1-1-utf-7", "text/html; charset=utf-16le", "text/html; charset=iso-2022-jp", "text/html; charset=x-user-defined", "text/html; charset=bocu-1",
+		"application/json; charset=utf-32be", "text/html; charset=\x00", "text/html; charset=" + strings.Repeat("x", 300), "text/html; CHARSET=Shift_JIS", "text/html;charset=windows-1252;charset=koi8-r"})
 	if ct != "" {
 		add("Content-Type", ct)
 	}
@@ -375,7 +379,7 @@ func c07Response(s *verifh.Session, selfURL string) ([]byte, []string) {
 	}
 	r.Shuffle(len(hdr), func(i, j int) { hdr[i], hdr[j] = hdr[j], hdr[i] })
 	var out bytes.Buffer
-	if r.Intn(10) == 0 {
+	if r.Intn(6) == 0 {
 		for k := 1 + r.Intn(7); k > 0; k-- {
 			out.WriteString(verifh.Pick(r, []string{"HTTP/1.1 100 Continue\r\n\r\n", "HTTP/1.1 103 Early Hints\r\nLink: </x>\r\n\r\n", "HTTP/1.1 102 Processing\r\n\r\n"}))
 		}
@@ -493,6 +497,7 @@ func TestVerif_C07_h1hostile(t *testing.T) {
 			return &c07Conn{Conn: conn, reads: &reads}, nil
 		})
 		c.SetLogger(nil)
+		c.GetTransport().ExpectContinueTimeout = 150 * time.Millisecond // keep Expect: 100-continue cases fast
 		o.setup(c)
 		clients[i] = c
 	}
@@ -504,6 +509,7 @@ func TestVerif_C07_h1hostile(t *testing.T) {
 	for i := 0; i < n; i++ {
 		resp, tags := c07Response(s, base)
 		oi := s.Rand().Intn(len(opts))
+		method := verifh.Pick(s.Rand(), []int{0, 0, 0, 0, 1, 2, 2, 3})
 		path := "/" + strconv.Itoa(i)
 		peer.set(path, c07Script{data: resp})
 		type result struct {
@@ -520,7 +526,18 @@ func TestVerif_C07_h1hostile(t *testing.T) {
 				if opts[oi].req != nil {
 					opts[oi].req(r, dir, i)
 				}
-				rp, err := r.Get(base + path)
+				var rp *Response
+				var err error
+				switch method {
+				case 1:
+					rp, err = r.SetBodyString("k=v&x=1").Post(base + path)
+				case 2:
+					rp, err = r.SetHeader("Expect", "100-continue").SetBodyString(strings.Repeat("b", 3000)).Post(base + path)
+				case 3:
+					rp, err = r.Head(base + path)
+				default:
+					rp, err = r.Get(base + path)
+				}
 				if rp == nil {
 					res.kind = "nil-response"
 					return
@@ -541,7 +558,8 @@ func TestVerif_C07_h1hostile(t *testing.T) {
 			}
 			ch <- res
 		}()
-		human := fmt.Sprintf("opt=%s tags=%v resp=%q", opts[oi].name, tags, truncate(string(resp), 300))
+		human := fmt.Sprintf("opt=%s method=%s tags=%v resp=%q", opts[oi].name, []string{"GET", "POST", "POST+Expect:100-continue", "HEAD"}[method], tags, truncate(string(resp), 300))
+		s.Count("method:" + []string{"GET", "POST", "POST+Expect", "HEAD"}[method])
 		id := "h1hostile:" + opts[oi].name + ":" + verifh.Hex(string(resp))
 		class := ""
 		// known finding (DESIGN section 5 row 9): AutoDecompress + a Content-Encoding the reader
